@@ -37,11 +37,13 @@ SHARD_TIMEOUT = {"quick": 900, "thorough": 1800}
 
 
 def shards(tier):
-    return [{"carrier": c} for c in ("numpy", "jax", "jaxtrace", "tf", "duck", "user")]
+    # the numpy / jax / duck tables are also walked in reverse order in separate processes:
+    # the verdict for a dtype must not depend on which dtypes were checked before it
+    return [{"carrier": c} for c in ("numpy", "jax", "jaxtrace", "tf", "duck", "user")] + [{"carrier": c, "reverse": True} for c in ("numpy", "jax", "duck")]
 
 
 def required_counters(tier):
-    return {"triples.numpy": 1000, "triples.jax": 800, "triples.jaxtrace": 800, "triples.tf": 300, "triples.duck": 500, "user.categories": 200, "kinds.key": 30, "kinds.other": 100}
+    return {"triples.numpy": 1000, "triples.jax": 800, "triples.jaxtrace": 800, "triples.tf": 300, "triples.duck": 500, "user.categories": 200, "kinds.key": 30, "kinds.other": 100, "reverse_order_shards": 3}
 
 
 def cat(name):
@@ -108,10 +110,12 @@ def numpy_dtypes():
     return sorted(out.items(), key=lambda kv: kv[0])
 
 
-def shard_numpy(rec):
+def shard_numpy(rec, reverse=False):
     import jaxtyping
 
     dts = numpy_dtypes()
+    if reverse:
+        dts = dts[::-1]
     rec.info["numpy_dtypes"] = len(dts)
     for (tname, dstr), d in dts:
         try:
@@ -127,14 +131,17 @@ def shard_numpy(rec):
     s2 = np.dtype([("first", np.uint8), ("second", np.int16)])
     s3 = np.dtype([("second", np.int8), ("first", np.uint8)])
     L1 = jaxtyping.make_numpy_struct_dtype(s1, "L1")
-    for d in (s1, s2, s3):
+    s4 = np.dtype([("first", np.uint8), ("second", np.int8)], align=True)
+    s5 = np.dtype({"names": ["first", "second"], "formats": [np.uint8, np.int8], "offsets": [0, 4], "itemsize": 8})
+    order = (s1, s2, s3, s4, s5) if not reverse else (s5, s4, s3, s2, s1)
+    for d in order:
         x = np.zeros((2,), dtype=d)
         for cname in DT.ALL_CATEGORIES:
             judge(rec, "numpy", "struct:" + str(d), "other", cname, x, np.ndarray, "void")
         got = real.check(x, L1[np.ndarray, "..."])
         rec.case(("numpy", "struct", str(d), "L1"), True)
         rec.count("triples.numpy")
-        want = "ok" if d == s1 else "no"
+        want = "ok" if str(d) == str(s1) else "no"  # "exact match on the name, order, and dtype of all its fields"
         if got != want:
             rec.violation("struct-dtype", {"dtype": str(d)}, f"make_numpy_struct_dtype(s1) vs {d}: want {want} got {got}", mechanism="struct-dtype-" + got)
     for bad in (np.dtype("float32"), np.dtype("U3"), "nope"):
@@ -172,12 +179,12 @@ def jax_keys():
     return out
 
 
-def shard_jax(rec):
+def shard_jax(rec, reverse=False):
     import jax
     import jax.numpy as jnp
 
     jax.config.update("jax_enable_x64", True)
-    for d in jax_dtypes():
+    for d in (jax_dtypes()[::-1] if reverse else jax_dtypes()):
         try:
             x = jnp.zeros((2,), dtype=d)
         except Exception as e:  # noqa
@@ -299,8 +306,8 @@ DUCK_NAMES = [
 ]
 
 
-def shard_duck(rec):
-    for dname, kind in DUCK_NAMES:
+def shard_duck(rec, reverse=False):
+    for dname, kind in (DUCK_NAMES[::-1] if reverse else DUCK_NAMES):
         carriers = [("str", real.Duck((2,), dname), real.Duck)]
         carriers.append(("torch", real.Duck((2,), TorchLikeDtype("torch", dname)), typing.Any))
         carriers.append(("mlx", real.Duck((2,), TorchLikeDtype("mlx.core", dname)), real.Duck))
@@ -348,16 +355,19 @@ def shard_user(rec, seed, tier):
 def run_shard(rec, seed, shard, tier):
     warnings.filterwarnings("ignore")
     c = shard["carrier"]
+    rev = bool(shard.get("reverse"))
+    if rev:
+        rec.count("reverse_order_shards")
     if c == "numpy":
-        shard_numpy(rec)
+        shard_numpy(rec, rev)
     elif c == "jax":
-        shard_jax(rec)
+        shard_jax(rec, rev)
     elif c == "jaxtrace":
         shard_jaxtrace(rec)
     elif c == "tf":
         shard_tf(rec)
     elif c == "duck":
-        shard_duck(rec)
+        shard_duck(rec, rev)
     else:
         shard_user(rec, seed, tier)
 
